@@ -1,7 +1,212 @@
 import Driver.Util
-/-! Suite C02: line-protocol handlers (stub — replaced when the property's model is built). -/
+import Driver.C01
+import LoraVerif.Model.Aes
+import LoraVerif.Model.Codec
+import LoraVerif.Spec.LoRaWAN
+import LoraVerif.Spec.LoRaWANBridge
+/-! Suite C02: parsers, MIC validation, in-place decryption. Model = `Codec.*` (transliteration of
+parser.rs), spec = `Spec.decode*` / `Spec.dataAuthentic` / `Spec.decryptData`, with the Lean AES. -/
+open Lora
 namespace Driver.C02
+open Driver.C01 (key? optKey? vec?)
 
-def handle (_ws : List String) : String := "bad-op"
+def hx (b : Bytes) : String := if b.isEmpty then "-" else hexOfBytes b
+def b01 (b : Bool) : String := if b then "1" else "0"
+def ftNum : FType → String
+  | .unconfirmedUp => "0" | .unconfirmedDown => "1" | .confirmedUp => "2" | .confirmedDown => "3"
+def optPort : Option UInt8 → String
+  | some p => toString p.toNat
+  | none => "-"
+
+def showModelView (v : Codec.DataView) : String :=
+  s!"D ft={ftNum v.frameType} up={b01 v.isUplink} cf={b01 v.isConfirmed} addr={hx v.devAddr} fctrl={hexByte v.fctrlRaw} adr={b01 v.adr} req={b01 v.adrAckReq} ack={b01 v.ack} pend={b01 v.fPending} flen={v.fOptsLen} fcnt={v.fcnt.toNat} fopts={hx v.fOpts} port={optPort v.fPort} frm={hx v.frm} mic={hx v.mic}"
+
+def showSpecView (v : Spec.DataView) (frm : Bytes) : String :=
+  s!"D ft={ftNum v.ftype} up={b01 v.uplink} cf={b01 v.confirmed} addr={hx (Spec.le 4 v.devAddr.toNat)} fctrl={hexByte v.fctrl} adr={b01 v.adr} req={b01 v.adrAckReq} ack={b01 v.ack} pend={b01 v.fPending} flen={v.foptsLen} fcnt={v.fcnt16.toNat} fopts={hx v.fopts} port={optPort v.port} frm={hx frm} mic={hx v.mic}"
+
+def showErr (e : Err) : String := "ERR:" ++ e.name
+
+def outStr {α} (f : α → String) : Outcome α → String
+  | .ok a => f a
+  | .err e => showErr e
+  | .panic => "PANIC"
+
+def exStr {α} (f : α → String) : Except Err α → String
+  | .ok a => f a
+  | .error e => showErr e
+
+def showJrModel (v : Codec.JoinRequestView) : String :=
+  s!"JR je={hx v.joinEui} de={hx v.devEui} dn={hx v.devNonce} mic={hx v.mic}"
+def showJrSpec (v : Spec.JoinRequestView) : String :=
+  s!"JR je={hx (Spec.le 8 v.joinEui.toNat)} de={hx (Spec.le 8 v.devEui.toNat)} dn={hx (Spec.le 2 v.devNonce.toNat)} mic={hx v.mic}"
+
+def modelDataView (b : Bytes) : Outcome Codec.DataView := (Codec.parseData b).bind Codec.DataPayload.view
+
+def kindModel : Codec.FrmPayload → String
+  | .none => "N -" | .macCommands b => "M " ++ hx b | .data b => "A " ++ hx b
+def kindSpec (v : Spec.DataView) (plain : Bytes) : String :=
+  match v.port with
+  | none => "N -"
+  | some p => if p = 0 then "M " ++ hx plain else "A " ++ hx plain
+
+/-- result of an in-place data operation: `OK <kind> <plaintext> <view>` or the error; then the buffer -/
+def showInPlaceModel (r : Codec.InPlace Codec.DataPayload) : String :=
+  let res := match r.1 with
+    | .ok p => (match p.frmPayload, p.view with
+        | .ok k, .ok v => s!"OK {kindModel k} {showModelView v}"
+        | _, _ => "PANIC")
+    | .err e => showErr e
+    | .panic => "PANIC"
+  s!"{res};{hx r.2}"
+
+def showCfModel : Option Codec.CfListView → String
+  | none => "-"
+  | some (.dynamicChannel fs) => "D" ++ String.join (fs.map hexOfBytes)
+  | some (.fixedChannel m) => "F" ++ hexOfBytes m
+def showCfSpec : Option Spec.CfListView → String
+  | none => "-"
+  | some (.dynamic fs) => "D" ++ String.join (fs.map fun f => hexOfBytes (Spec.le 3 f))
+  | some (.fixed m) => "F" ++ hexOfBytes (Spec.le 9 m)
+
+def handle (ws : List String) : String :=
+  match ws with
+  | ["parse", h] =>
+    match bytesOfHex? h with
+    | some b =>
+      let m := match Codec.parse b with
+        | .ok (.joinRequest bytes) => outStr showJrModel (Codec.joinRequestView bytes)
+        | .ok (.joinAccept bytes) => s!"JA len={bytes.length}"
+        | .ok (.data p) => outStr showModelView p.view
+        | .err e => showErr e
+        | .panic => "PANIC"
+      let s := match Spec.decode b with
+        | .ok (.joinRequest v) => showJrSpec v
+        | .ok (.joinAccept bytes) => s!"JA len={bytes.length}"
+        | .ok (.data v) => showSpecView v v.frm
+        | .error e => showErr e
+      s!"{m}|{s}"
+    | none => "bad-op"
+  | ["parsedata", h] =>
+    match bytesOfHex? h with
+    | some b => s!"{outStr showModelView (modelDataView b)}|{exStr (fun v => showSpecView v v.frm) (Spec.decodeData b)}"
+    | none => "bad-op"
+  | ["parsejr", h] =>
+    match bytesOfHex? h with
+    | some b =>
+      s!"{outStr showJrModel ((Codec.parseJoinRequest b).bind Codec.joinRequestView)}|{exStr showJrSpec (Spec.decodeJoinRequest b)}"
+    | none => "bad-op"
+  | ["parseja", h] =>
+    match bytesOfHex? h with
+    | some b =>
+      s!"{outStr (fun x => s!"JA len={x.length}") (Codec.parseJoinAccept b)}|{exStr (fun _ => s!"JA len={b.length}") (Spec.checkJoinAccept b)}"
+    | none => "bad-op"
+  | ["mic", h, k, fcnt] =>
+    match bytesOfHex? h, key? k, fcnt.toNat? with
+    | some b, some k, some n =>
+      let n := UInt32.ofNat n
+      let m := outStr b01 ((Codec.parseData b).bind fun p => p.validateMic ⟨aes, k⟩ n)
+      let s := exStr (fun v => b01 (Spec.dataAuthentic aes k n b v)) (Spec.decodeData b)
+      s!"{m}|{s}"
+    | _, _, _ => "bad-op"
+  | ["decrypt", h, nwk, app, fcnt] =>
+    match bytesOfHex? h, optKey? nwk, optKey? app, fcnt.toNat? with
+    | some b, some nwk, some app, some n =>
+      let n := UInt32.ofNat n
+      let m := showInPlaceModel (Codec.decryptInPlace aes b nwk app n)
+      let s := match Spec.decryptData aes nwk app n b with
+        | .ok (v, plain) => s!"OK {kindSpec v plain} {showSpecView v plain};{hx (Spec.withPayload b v plain)}"
+        | .error e => s!"{showErr e};{hx b}"
+      s!"{m}|{s}"
+    | _, _, _, _ => "bad-op"
+  | ["checkdec", h, nwk, app, fcnt] =>
+    match bytesOfHex? h, key? nwk, optKey? app, fcnt.toNat? with
+    | some b, some nwk, some app, some n =>
+      let n := UInt32.ofNat n
+      let m := showInPlaceModel (Codec.checkMicAndDecryptInPlace aes b nwk app n)
+      let s := match Spec.decodeData b with
+        | .error e => s!"{showErr e};{hx b}"
+        | .ok v0 =>
+          if !Spec.dataAuthentic aes nwk n b v0 then s!"ERR:InvalidMic;{hx b}"
+          else match Spec.decryptData aes (some nwk) app n b with
+            | .ok (v, plain) => s!"OK {kindSpec v plain} {showSpecView v plain};{hx (Spec.withPayload b v plain)}"
+            | .error e => s!"{showErr e};{hx b}"
+      s!"{m}|{s}"
+    | _, _, _, _ => "bad-op"
+  | ["dd", h, nwk, app, fcnt] =>
+    -- decrypt twice: the caller's buffer is back to what was received
+    match bytesOfHex? h, optKey? nwk, optKey? app, fcnt.toNat? with
+    | some b, some nwk, some app, some n =>
+      let n := UInt32.ofNat n
+      let m := match Codec.decryptInPlace aes b nwk app n with
+        | (.ok _, b1) => (match Codec.decryptInPlace aes b1 nwk app n with
+            | (.ok _, b2) => hx b2
+            | (.err e, _) => "SECOND-" ++ showErr e
+            | (.panic, _) => "PANIC")
+        | (.err e, _) => showErr e
+        | (.panic, _) => "PANIC"
+      let s := match Spec.decryptData aes nwk app n b with
+        | .ok _ => hx b
+        | .error e => showErr e
+      s!"{m}|{s}"
+    | _, _, _, _ => "bad-op"
+  | ["jrmic", h, k] =>
+    match bytesOfHex? h, key? k with
+    | some b, some k =>
+      let m := outStr b01 ((Codec.parseJoinRequest b).bind fun bytes => Codec.joinRequestValidateMic bytes ⟨aes, k⟩)
+      let s := exStr (fun v => b01 (Spec.joinRequestAuthentic aes k b v)) (Spec.decodeJoinRequest b)
+      s!"{m}|{s}"
+    | _, _ => "bad-op"
+  | ["ja", h, k, dn] =>
+    match bytesOfHex? h, key? k, vec? 2 dn with
+    | some b, some k, some dn =>
+      let cr : Codec.Crypto := ⟨aes, k⟩
+      let m := match Codec.joinAcceptDecryptInPlace b cr with
+        | (.ok dec, buf) =>
+          (match Codec.joinAcceptValidateMic dec cr, Codec.joinAcceptView dec, Codec.deriveSessionKey dec 0x01 dn cr,
+                 Codec.deriveSessionKey dec 0x02 dn cr, Codec.joinAcceptCheckMicAndDecryptInPlace b cr with
+          | .ok ok, .ok v, .ok nk, .ok ak, chk =>
+            let chkS := match chk.1 with | .ok _ => "OK" | .err e => showErr e | .panic => "PANIC"
+            s!"OK mic={b01 ok} chk={chkS} chkbuf={hx chk.2} jn={hx v.joinNonce} ni={hx v.netId} addr={hx v.devAddr} dl={hexByte v.dlSettings} rx={v.rxDelay.toNat} cfl={showCfModel v.cFList} micb={hx v.mic} nwk={hx nk} app={hx ak};{hx buf}"
+          | _, _, _, _, _ => "PANIC")
+        | (.err e, buf) => s!"{showErr e};{hx buf}"
+        | (.panic, _) => "PANIC"
+      let s := match Spec.decodeJoinAccept aes k b with
+        | .ok (clear, v, ok) =>
+          let chkS := if ok then "OK" else "ERR:InvalidMic"
+          let nk := Spec.sessionKey aes k 0x01 v.joinNonce v.netId (Spec.fromLe dn.toList)
+          let ak := Spec.sessionKey aes k 0x02 v.joinNonce v.netId (Spec.fromLe dn.toList)
+          s!"OK mic={b01 ok} chk={chkS} chkbuf={hx clear} jn={hx (Spec.le 3 v.joinNonce)} ni={hx (Spec.le 3 v.netId)} addr={hx (Spec.le 4 v.devAddr.toNat)} dl={hexByte v.dlSettings} rx={v.rxDelay.toNat} cfl={showCfSpec v.cfList} micb={hx v.mic} nwk={hx nk.toList} app={hx ak.toList};{hx clear}"
+        | .error e => s!"{showErr e};{hx b}"
+      s!"{m}|{s}"
+    | _, _, _ => "bad-op"
+  | "rt" :: ft :: addr :: flags :: fcnt :: fopts :: port :: pld :: nwk :: app :: [] =>
+    -- build, then check MIC and decrypt what was built, with the same keys and counter
+    match C01.ftype? ft, vec? 4 addr, flags.toNat?, fcnt.toNat?, bytesOfHex? fopts, bytesOfHex? pld, key? nwk, optKey? app with
+    | some ft, some addr, some fl, some fcnt, some fopts, some pld, some nwk, some app =>
+      match C01.payload? port pld with
+      | some payload =>
+        let d : Codec.DataFrame :=
+          { frameType := ft, devAddr := addr, adr := fl &&& 8 ≠ 0, adrAckReq := fl &&& 4 ≠ 0, ack := fl &&& 2 ≠ 0,
+            fPending := fl &&& 1 ≠ 0, fcnt := UInt32.ofNat fcnt, fOpts := fopts, payload := payload }
+        let m := match d.buildInto aes (List.replicate 300 0) nwk app with
+          | .ok frame => "RT " ++ showInPlaceModel (Codec.checkMicAndDecryptInPlace aes frame nwk app d.fcnt)
+          | .err e => "RT " ++ showErr e
+          | .panic => "PANIC"
+        -- the specification: the frame decodes to the normalised description (MIC = the one the encoder computed)
+        let s := match Spec.encodeData aes nwk app d.toSpec 300 with
+          | .error e => "RT " ++ showErr e
+          | .ok frame =>
+            let n := d.toSpec.norm
+            let plain := match n.body with | some (_, p) => p | none => []
+            let v : Spec.DataView :=
+              { ftype := n.ftype, uplink := n.ftype.isUplink, confirmed := n.ftype.isConfirmed, devAddr := n.devAddr,
+                fctrl := Spec.fctrl n, adr := n.adr, adrAckReq := n.adrAckReq, ack := n.ack, fPending := n.fPending,
+                foptsLen := n.fopts.length, fcnt16 := UInt16.ofNat (n.fcnt.toNat % 65536), fopts := n.fopts,
+                port := n.body.map (fun (x : UInt8 × Bytes) => x.1), frm := plain, mic := frame.drop (frame.length - 4) }
+            s!"RT OK {kindSpec v plain} {showSpecView v plain};{hx (frame.take (frame.length - 4 - plain.length) ++ plain ++ v.mic)}"
+        s!"{m}|{s}"
+      | none => "bad-op"
+    | _, _, _, _, _, _, _, _ => "bad-op"
+  | _ => "bad-op"
 
 end Driver.C02
